@@ -311,8 +311,16 @@ func (rs *RewardShadow) ProcessBlock(o *BlockOutcome) {
 				assets[c.Denom] = true
 			}
 		}
+		// value removed at the destination of a slashed redelegation is redistributed to the other
+		// positions on that validator: their values change too
+		dsts := map[[2]string]bool{}
+		for _, ix := range s.Pre.RedelIndex {
+			if ix.Src == s.Val && !ix.Completion.Before(s.Pre.Time) {
+				dsts[[2]string{ix.Dst, ix.Denom}] = true
+			}
+		}
 		for pk := range rs.E {
-			if assets[pk.Denom] {
+			if assets[pk.Denom] || dsts[[2]string{pk.Val, pk.Denom}] {
 				rs.Taint[pk] = "slash"
 			}
 		}
